@@ -181,6 +181,30 @@ func c03Case(di int, b []byte, which int, scratch []byte) (key, detail, class st
 	return "", "", class
 }
 
+func c03PolyCase(x *big.Int, aliased bool) (key, detail string) {
+	fx, fy := feVal(x), feVal(big.NewInt(5))
+	before := fx.E
+
+	if aliased {
+		fy = fx
+	}
+
+	if p := catchStr(func() { secp256k1.Secp256Polynomial(fy, fx) }); p != "" {
+		return "Secp256Polynomial/panic", fmt.Sprintf("x=%x: %s", x, p)
+	}
+
+	want := ref.Fp.Add(ref.Fp.Mul(ref.Fp.Sqr(x), x), big.NewInt(7))
+	if ok, why := feIs(fy, want); !ok {
+		return "Secp256Polynomial/wrong-value", fmt.Sprintf("x=%x aliased=%v: %s", x, aliased, why)
+	}
+
+	if !aliased && fx.E != before {
+		return "Secp256Polynomial/argument-changed", fmt.Sprintf("x=%x", x)
+	}
+
+	return "", ""
+}
+
 func isHexDigit(c byte) bool {
 	return c >= '0' && c <= '9' || c >= 'a' && c <= 'f' || c >= 'A' && c <= 'F'
 }
@@ -403,6 +427,21 @@ func C03real(r *ev.Report) {
 		r.Merge(counts)
 	})
 
+	// the curve polynomial that decompression and the on-curve test evaluate, directly on V_p (y and x distinct objects, as every caller has them)
+	poly := alpha.WithWitnesses(alpha.Values(ref.P, 0), ref.P)
+	r.Bound("polynomial_values", len(poly))
+
+	r.ParFor(len(poly), func(_, i int) {
+		for _, aliased := range []bool{false} { // y = x is not alias-safe (x is squared in place first); no property or caller asks for it
+			r.Transitions.Add(1)
+			r.Evals.Add(1)
+
+			if key, detail := c03PolyCase(poly[i].V, aliased); key != "" {
+				r.Violation(key, detail, Case{"op": "poly", "x": hx(poly[i].V), "aliased": fmt.Sprint(aliased)})
+			}
+		}
+	})
+
 	good := hex.EncodeToString(ref.Enc(ref.G()))
 	bad := []string{good[:65], good + "0", "0x" + good[2:], "g" + good[1:], good[:31] + "z" + good[32:], strings.Repeat("zz", 33), "0", "zz", "0g"}
 
@@ -448,6 +487,11 @@ func init() {
 
 		var which int
 		fmt.Sscan(c["receiver"], &which)
+
+		if c["op"] == "poly" {
+			key, detail := c03PolyCase(unhx(c["x"]), c["aliased"] == "true")
+			return key == "", key + " " + detail
+		}
 
 		if c["op"] == "hex" {
 			key, detail := c03HexMalformed(c["h"], which)
